@@ -65,7 +65,7 @@ func (x *Exec) callStatic(bc *blockCtx, in ssa.Instruction, f *ssa.Function, bin
 	}
 	fc := x.prog.Contracts.Funcs[name]
 	if fc != nil && !fc.Inline {
-		return x.applyContract(bc, in, f, fc, args)
+		return x.applyContract(bc, in, f, fc, args, binds)
 	}
 	if len(f.Blocks) == 0 && f.Synthetic != "" {
 		// wrapper / bound method without body: not built
@@ -189,7 +189,7 @@ func (x *Exec) zeroResult(sig *types.Signature) *Val {
 }
 
 // applyContract uses the callee's contract modularly.
-func (x *Exec) applyContract(bc *blockCtx, in ssa.Instruction, f *ssa.Function, fc *FuncContract, args []*Val) *Val {
+func (x *Exec) applyContract(bc *blockCtx, in ssa.Instruction, f *ssa.Function, fc *FuncContract, args []*Val, binds []*Val) *Val {
 	name := fnKey(f)
 	vars := map[string]*Val{}
 	sig := f.Signature
@@ -207,8 +207,15 @@ func (x *Exec) applyContract(bc *blockCtx, in ssa.Instruction, f *ssa.Function, 
 			vars[sig.Params().At(i).Name()] = args[k+i]
 		}
 	}
+	for i, fv := range f.FreeVars {
+		if i < len(binds) {
+			// captured variable: contracts refer to its current value by name
+			loc := x.derefLoc(nil, nil, binds[i])
+			vars[fv.Name()] = &Val{Typ: fv.Type().(*types.Pointer).Elem(), T: x.loadLoc(bc.st, loc)}
+		}
+	}
 	pre := bc.st.clone()
-	ce := &CEnv{x: x, st: pre, old: pre, vars: vars, pkg: f.Pkg, guard: bc.reach, fc: fc}
+	ce := &CEnv{x: x, st: pre, old: pre, vars: vars, pkg: fnPkg(f), guard: bc.reach, fc: fc}
 	x.evalLets(ce, fc)
 	if !fc.Trusted || len(fc.Requires) > 0 {
 		for i, r := range fc.Requires {
@@ -238,14 +245,14 @@ func (x *Exec) applyContract(bc *blockCtx, in ssa.Instruction, f *ssa.Function, 
 		}
 	}
 	var res *Val
-	if fc.Pure && sig.Results().Len() == 1 {
+	if fc.Pure && sig.Results().Len() == 1 && len(f.FreeVars) == 0 {
 		// deterministic: the result is a function of the arguments
-		res = x.pureFuncApp(&CEnv{x: x, st: bc.st, old: pre, vars: vars, pkg: f.Pkg, guard: bc.reach, fc: fc, depth: 3}, f, fc, args)
+		res = x.pureFuncApp(&CEnv{x: x, st: bc.st, old: pre, vars: vars, pkg: fnPkg(f), guard: bc.reach, fc: fc, depth: 3}, f, fc, args)
 		x.rangeFacts(res.T, res.Typ, bc.reach, 1)
 	} else {
 		res = x.havocResult(bc, sig, name)
 	}
-	post := &CEnv{x: x, st: bc.st, old: pre, vars: vars, pkg: f.Pkg, guard: bc.reach, fc: fc, lets: ce.lets}
+	post := &CEnv{x: x, st: bc.st, old: pre, vars: vars, pkg: fnPkg(f), guard: bc.reach, fc: fc, lets: ce.lets}
 	x.bindResults(post, sig, res)
 	for _, e := range fc.Ensures {
 		x.assume(bc.reach, x.evalBool(post, e))
@@ -403,6 +410,9 @@ func (x *Exec) ifaceAxiom(key string, m *types.Func) {
 // callDynamic models a call through a function value.
 func (x *Exec) callDynamic(bc *blockCtx, in ssa.Instruction, fv *Val, cc *ssa.CallCommon, args []*Val) *Val {
 	ft := x.asTerm(fv)
+	if cl, ok := x.closures[ft.ID]; ok {
+		return x.callStatic(bc, in, cl.Fn, cl.Binds, args)
+	}
 	sig := cc.Signature()
 	x.check(bc, "safe:nil", in, x.b.Not(x.b.Eq(ft, x.b.Int(0))))
 	// ghost call counter
